@@ -2049,3 +2049,969 @@ def m_phf_get(I, c, mp, key):
         if all(beq(I, zx(x), y) for x, y in zip(qf, kf)):
             return Some(Ref(e.fields, 1))
     return NONE_()
+
+
+# =========================================================================================
+# further std vocabulary (so that realistic rewrites of the crate stay decidable)
+
+
+@model('str::bytes')
+def m_str_bytes(I, c, s):
+    return ListIt(list(sbytes(s)))
+
+
+@model('str::char_indices')
+def m_char_indices(I, c, s):
+    b = sbytes(s)
+    out, i = [], 0
+    while i < len(b):
+        ch, w = decode_char(I, b, i)
+        out.append(Tup(i, ch))
+        i += w
+    return ListIt(out)
+
+
+@model('str::starts_with')
+def m_starts_with(I, c, s, p):
+    b = sbytes(s)
+    p = deref_all(p)
+    if isinstance(p, int) or is_sym(p):
+        return len(b) > 0 and beq(I, b[0], p) if isinstance(p, int) and p < 0x80 else _unsupported('starts_with non-ASCII char')
+    pb = sbytes(p)
+    return len(b) >= len(pb) and str_eq(I, b[:len(pb)], pb)
+
+
+@model('str::ends_with')
+def m_ends_with(I, c, s, p):
+    b = sbytes(s)
+    p = deref_all(p)
+    if isinstance(p, int):
+        _ascii_pat(p)
+        return len(b) > 0 and beq(I, b[-1], p)
+    pb = sbytes(p)
+    return len(b) >= len(pb) and str_eq(I, b[len(b) - len(pb):], pb)
+
+
+def _unsupported(msg):
+    raise Unsupported(msg)
+
+
+@model('str::strip_suffix')
+def m_strip_suffix(I, c, s, p):
+    b = sbytes(s)
+    p = deref_all(p)
+    pb = [_ascii_pat(p)] if isinstance(p, int) else list(sbytes(p))
+    if len(b) >= len(pb) and str_eq(I, b[len(b) - len(pb):], pb):
+        return Some(RStr(b[:len(b) - len(pb)]))
+    return NONE_()
+
+
+@model('str::find')
+def m_str_find(I, c, s, p):
+    b = sbytes(s)
+    p = deref_all(p)
+    if isinstance(p, int):
+        _ascii_pat(p)
+        for i, x in enumerate(b):
+            if beq(I, x, p):
+                return Some(i)
+        return NONE_()
+    if isinstance(p, VecVal):
+        tab = sum(1 << _ascii_pat(q) for q in set(p.items))
+        for i, x in enumerate(b):
+            if in_set(I, x, tab):
+                return Some(i)
+        return NONE_()
+    pb = sbytes(p)
+    for i in range(len(b) - len(pb) + 1):
+        if str_eq(I, b[i:i + len(pb)], pb):
+            return Some(i)
+    return NONE_()
+
+
+@model('str::rfind')
+def m_str_rfind(I, c, s, p):
+    b = sbytes(s)
+    p = deref_all(p)
+    if isinstance(p, int):
+        _ascii_pat(p)
+        for i in range(len(b) - 1, -1, -1):
+            if beq(I, b[i], p):
+                return Some(i)
+        return NONE_()
+    pb = sbytes(p)
+    for i in range(len(b) - len(pb), -1, -1):
+        if str_eq(I, b[i:i + len(pb)], pb):
+            return Some(i)
+    return NONE_()
+
+
+def _check_boundary(I, b, i):
+    if i > len(b):
+        raise Panic('byte index %d is out of bounds' % i)
+    if i < len(b) and in_range(I, b[i], 0x80, 0xBF):
+        raise Panic('byte index %d is not a char boundary' % i)
+
+
+@model('str::split_at')
+def m_split_at(I, c, s, i):
+    b = sbytes(s)
+    _check_boundary(I, b, i)
+    return Tup(RStr(b[:i]), RStr(b[i:]))
+
+
+def _range_of(r, n):
+    """(lo, hi) from a Range / RangeFrom / RangeTo / RangeFull value"""
+    r = deref_all(r)
+    if isinstance(r, Adt):
+        if r.ty == 'Range':
+            return r.fields[0], r.fields[1]
+        if r.ty == 'RangeFrom':
+            return r.fields[0], n
+        if r.ty == 'RangeTo':
+            return 0, r.fields[0]
+        if r.ty == 'RangeInclusive':
+            return r.fields[0], r.fields[1] + 1
+        if r.ty == 'RangeToInclusive':
+            return 0, r.fields[0] + 1
+        if r.ty == 'RangeFull':
+            return 0, n
+    raise Unsupported('range %r' % (r,))
+
+
+@model('Index::index@str', 'Index::index@String', 'Index::index@SmartString', 'str::get_unchecked', 'SliceIndex::index')
+def m_str_index(I, c, s, r):
+    if c.method == 'index' and c.trait is not None and c.trait[1] == 'SliceIndex':
+        s, r = r, s
+    b = sbytes(s)
+    lo, hi = _range_of(r, len(b))
+    if not (isinstance(lo, int) and isinstance(hi, int)):
+        raise Unsupported('symbolic slice bounds')
+    if lo > hi or hi > len(b):
+        raise Panic('slice index out of range')
+    _check_boundary(I, b, lo)
+    _check_boundary(I, b, hi)
+    return RStr(b[lo:hi])
+
+
+@model('str::get')
+def m_str_get(I, c, s, r):
+    b = sbytes(s)
+    lo, hi = _range_of(r, len(b))
+    if lo > hi or hi > len(b):
+        return NONE_()
+    for i in (lo, hi):
+        if i < len(b) and in_range(I, b[i], 0x80, 0xBF):
+            return NONE_()
+    return Some(RStr(b[lo:hi]))
+
+
+@model('str::trim', 'str::trim_start', 'str::trim_end')
+def m_str_trim(I, c, s):
+    WS = sum(1 << x for x in (9, 10, 11, 12, 13, 32))
+    b = list(sbytes(s))
+    for x in b:
+        if not isinstance(x, int) and not I.ctx.decide_pred(x, ((1 << 128) - 1)):
+            raise Unsupported('trim over non-ASCII symbolic text (Unicode white space not modelled)')
+    if c.method != 'trim_end':
+        while b and in_set(I, b[0], WS):
+            b.pop(0)
+    if c.method != 'trim_start':
+        while b and in_set(I, b[-1], WS):
+            b.pop()
+    return RStr(b)
+
+
+@model('str::trim_end_matches')
+def m_trim_end_matches(I, c, s, ch):
+    b = list(sbytes(s))
+    _ascii_pat(ch)
+    while b and beq(I, b[-1], ch):
+        b.pop()
+    return RStr(b)
+
+
+@model('str::rsplit')
+def m_rsplit(I, c, s, ch):
+    b = sbytes(s)
+    _ascii_pat(ch)
+    out, cur = [], []
+    for x in b:
+        if beq(I, x, ch):
+            out.append(RStr(cur))
+            cur = []
+        else:
+            cur.append(x)
+    out.append(RStr(cur))
+    return ListIt(out[::-1])
+
+
+@model('str::splitn')
+def m_splitn(I, c, s, n, ch):
+    b = sbytes(s)
+    _ascii_pat(ch)
+    out, cur = [], []
+    for x in b:
+        if len(out) < n - 1 and beq(I, x, ch):
+            out.append(RStr(cur))
+            cur = []
+        else:
+            cur.append(x)
+    out.append(RStr(cur))
+    return ListIt(out if n > 0 else [])
+
+
+@model('str::rsplitn')
+def m_rsplitn(I, c, s, n, ch):
+    b = sbytes(s)
+    _ascii_pat(ch)
+    out, cur = [], []
+    for x in reversed(b):
+        if len(out) < n - 1 and beq(I, x, ch):
+            out.append(RStr(cur[::-1]))
+            cur = []
+        else:
+            cur.append(x)
+    out.append(RStr(cur[::-1]))
+    return ListIt(out if n > 0 else [])
+
+
+@model('str::split_terminator')
+def m_split_terminator(I, c, s, ch):
+    parts = SplitIt(sbytes(s), _ascii_pat(ch)).drain(I)
+    if parts and len(parts[-1].b) == 0:
+        parts.pop()
+    return ListIt(parts)
+
+
+@model('str::to_ascii_uppercase')
+def m_to_ascii_upper(I, c, s):
+    out = []
+    for x in sbytes(s):
+        if isinstance(x, int):
+            out.append(x - 0x20 if 0x61 <= x <= 0x7A else x)
+        elif in_range(I, x, 0x61, 0x7A):
+            out.append(z3.simplify(x - 0x20))
+        else:
+            out.append(x)
+    return StringBuf(out)
+
+
+@model('str::make_ascii_uppercase')
+def m_make_ascii_upper(I, c, s):
+    buf = strbuf_of(s)
+    for i, x in enumerate(buf.b):
+        if isinstance(x, int):
+            if 0x61 <= x <= 0x7A:
+                buf.b[i] = x - 0x20
+        elif in_range(I, x, 0x61, 0x7A):
+            buf.b[i] = z3.simplify(x - 0x20)
+    return UNIT()
+
+
+@model('str::is_ascii')
+def m_str_is_ascii(I, c, s):
+    return all(in_range(I, x, 0, 0x7F) for x in sbytes(s))
+
+
+@model('str::is_char_boundary')
+def m_is_char_boundary(I, c, s, i):
+    b = sbytes(s)
+    if i == 0 or i == len(b):
+        return True
+    if i > len(b):
+        return False
+    return not in_range(I, b[i], 0x80, 0xBF)
+
+
+@model('str::repeat')
+def m_str_repeat(I, c, s, n):
+    return StringBuf(list(sbytes(s)) * n)
+
+
+@model('str::replace')
+def m_str_replace(I, c, s, pat, to):
+    b = sbytes(s)
+    p = deref_all(pat)
+    tb = list(sbytes(to))
+    if isinstance(p, int):
+        _ascii_pat(p)
+        out = []
+        for x in b:
+            if beq(I, x, p):
+                out.extend(tb)
+            else:
+                out.append(x)
+        return StringBuf(out)
+    pb = sbytes(p)
+    if not pb:
+        raise Unsupported('replace with empty pattern')
+    out, i = [], 0
+    while i < len(b):
+        if i + len(pb) <= len(b) and str_eq(I, b[i:i + len(pb)], pb):
+            out.extend(tb)
+            i += len(pb)
+        else:
+            out.append(b[i])
+            i += 1
+    return StringBuf(out)
+
+
+@model('str::to_uppercase')
+def m_str_to_uppercase(I, c, s):
+    raise Unsupported('str::to_uppercase (no upper-case table)')
+
+
+# ---- u8
+@model('u8::is_ascii_alphanumeric')
+def m_u8_alnum(I, c, r):
+    x = deref_all(r)
+    return b_or(rng(x, 0x30, 0x39), rng(x, 0x41, 0x5A), rng(x, 0x61, 0x7A))
+
+
+@model('u8::is_ascii_alphabetic', 'char::is_ascii_alphabetic')
+def m_u8_alpha(I, c, r):
+    x = deref_all(r)
+    return b_or(rng(x, 0x41, 0x5A), rng(x, 0x61, 0x7A))
+
+
+@model('u8::is_ascii_digit')
+def m_u8_digit(I, c, r):
+    return rng(deref_all(r), 0x30, 0x39)
+
+
+@model('u8::is_ascii_hexdigit')
+def m_u8_hexdigit(I, c, r):
+    x = deref_all(r)
+    return b_or(rng(x, 0x30, 0x39), rng(x, 0x41, 0x46), rng(x, 0x61, 0x66))
+
+
+@model('u8::is_ascii_lowercase')
+def m_u8_lower(I, c, r):
+    return rng(deref_all(r), 0x61, 0x7A)
+
+
+@model('u8::is_ascii_uppercase')
+def m_u8_upper(I, c, r):
+    return rng(deref_all(r), 0x41, 0x5A)
+
+
+@model('u8::is_ascii')
+def m_u8_is_ascii(I, c, r):
+    x = deref_all(r)
+    return x < 0x80 if isinstance(x, int) else z3.ULT(x, 0x80)
+
+
+@model('u8::is_ascii_punctuation', 'char::is_ascii_punctuation')
+def m_u8_punct(I, c, r):
+    x = deref_all(r)
+    return b_or(rng(x, 0x21, 0x2F), rng(x, 0x3A, 0x40), rng(x, 0x5B, 0x60), rng(x, 0x7B, 0x7E))
+
+
+@model('u8::is_ascii_control', 'char::is_ascii_control')
+def m_u8_control(I, c, r):
+    x = deref_all(r)
+    return b_or(rng(x, 0, 0x1F), rng(x, 0x7F, 0x7F))
+
+
+@model('u8::is_ascii_whitespace', 'char::is_ascii_whitespace')
+def m_u8_ws(I, c, r):
+    x = deref_all(r)
+    return b_or(rng(x, 9, 10), rng(x, 12, 13), rng(x, 32, 32))
+
+
+@model('u8::is_ascii_graphic', 'char::is_ascii_graphic')
+def m_u8_graphic(I, c, r):
+    return rng(deref_all(r), 0x21, 0x7E)
+
+
+@model('u8::to_ascii_lowercase')
+def m_u8_to_lower(I, c, r):
+    x = deref_all(r)
+    if isinstance(x, int):
+        return x + 0x20 if 0x41 <= x <= 0x5A else x
+    return z3.If(z3.And(z3.UGE(x, 0x41), z3.ULE(x, 0x5A)), x + 0x20, x)
+
+
+@model('u8::to_ascii_uppercase')
+def m_u8_to_upper(I, c, r):
+    x = deref_all(r)
+    if isinstance(x, int):
+        return x - 0x20 if 0x61 <= x <= 0x7A else x
+    return z3.If(z3.And(z3.UGE(x, 0x61), z3.ULE(x, 0x7A)), x - 0x20, x)
+
+
+@model('u8::eq_ignore_ascii_case', 'char::eq_ignore_ascii_case')
+def m_u8_eq_ignore_case(I, c, a, b):
+    return ascii_lower_byte(deref_all(a)) == ascii_lower_byte(deref_all(b))
+
+
+@model('char::is_alphanumeric', 'char::is_alphabetic', 'char::is_numeric', 'char::is_whitespace', 'char::is_control')
+def m_char_unicode_class(I, c, r):
+    x = deref_all(r)
+    if isinstance(x, int) and x < 0x80:
+        ch = chr(x)
+        return {'is_alphanumeric': ch.isalnum(), 'is_alphabetic': ch.isalpha(), 'is_numeric': ch.isdigit(),
+                'is_whitespace': ch in ' \t\n\r\x0b\x0c', 'is_control': x < 0x20 or x == 0x7F}[c.method]
+    raise Unsupported('char::%s on non-ASCII / symbolic char (no table)' % c.method)
+
+
+@model('char::len_utf8')
+def m_len_utf8(I, c, ch):
+    return len(encode_char(I, deref_all(ch)))
+
+
+@model('PartialEq::eq@char', 'PartialEq::eq@u8', 'PartialEq::eq@usize', 'PartialEq::eq@bool')
+def m_scalar_eq(I, c, a, b):
+    a, b = deref_all(a), deref_all(b)
+    if isinstance(a, (int, bool)) and isinstance(b, (int, bool)):
+        return a == b
+    return zx(a) == zx(b)
+
+
+@model('PartialEq::ne@char', 'PartialEq::ne@u8', 'PartialEq::ne@usize')
+def m_scalar_ne(I, c, a, b):
+    a, b = deref_all(a), deref_all(b)
+    if isinstance(a, int) and isinstance(b, int):
+        return a != b
+    return zx(a) != zx(b)
+
+
+@model('Ord::cmp@char', 'Ord::cmp@u32')
+def m_char_cmp(I, c, a, b):
+    return Ordering(seq_cmp(I, [zx(deref_all(a))], [zx(deref_all(b))]))
+
+
+@model('PartialOrd::partial_cmp@char', 'PartialOrd::partial_cmp@u8')
+def m_char_pcmp(I, c, a, b):
+    return Some(Ordering(seq_cmp(I, [zx(deref_all(a))], [zx(deref_all(b))])))
+
+
+@model('Ord::cmp@u8')
+def m_u8_cmp(I, c, a, b):
+    return Ordering(seq_cmp(I, [deref_all(a)], [deref_all(b)]))
+
+
+@model('Ordering::then', 'Ordering::then_with')
+def m_ord_then(I, c, o, nxt):
+    if o.variant != 'Equal':
+        return o
+    return I.call_value(nxt, []) if c.method == 'then_with' else nxt
+
+
+@model('Ordering::reverse')
+def m_ord_reverse(I, c, o):
+    return Adt('Ordering', {'Less': 'Greater', 'Equal': 'Equal', 'Greater': 'Less'}[o.variant], [])
+
+
+@model('Ordering::is_lt', 'Ordering::is_gt', 'Ordering::is_le', 'Ordering::is_ge')
+def m_ord_is(I, c, o):
+    v = deref_all(o).variant
+    return {'is_lt': v == 'Less', 'is_gt': v == 'Greater', 'is_le': v != 'Greater', 'is_ge': v != 'Less'}[c.method]
+
+
+# ---- more iterator adaptors
+class ZipIt(It):
+    def __init__(self, a, b):
+        self.a, self.b = a, b
+
+    def next(self, I):
+        x = self.a.next(I)
+        if x is STOP:
+            return STOP
+        y = self.b.next(I)
+        if y is STOP:
+            return STOP
+        return Tup(x, y)
+
+
+@model('Iterator::zip')
+def m_iter_zip(I, c, a, b):
+    return ZipIt(as_iter(I, a), as_iter(I, b))
+
+
+@model('Iterator::enumerate')
+def m_iter_enumerate(I, c, a):
+    return ListIt([Tup(i, v) for i, v in enumerate(as_iter(I, a).drain(I))])
+
+
+@model('Iterator::skip')
+def m_iter_skip(I, c, a, n):
+    return ListIt(as_iter(I, a).drain(I)[n:])
+
+
+@model('Iterator::take')
+def m_iter_take(I, c, a, n):
+    it = as_iter(I, a)
+    out = []
+    while len(out) < n:
+        v = it.next(I)
+        if v is STOP:
+            break
+        out.append(v)
+    return ListIt(out)
+
+
+@model('Iterator::chain')
+def m_iter_chain(I, c, a, b):
+    return ListIt(as_iter(I, a).drain(I) + as_iter(I, b).drain(I))
+
+
+@model('Iterator::peekable', 'Iterator::fuse', 'Iterator::by_ref', 'Iterator::copied', 'Iterator::cloned')
+def m_iter_passthrough(I, c, a):
+    it = as_iter(I, a)
+    if c.method in ('copied', 'cloned'):
+        return ListIt([clone_val(deref_all(v)) for v in it.drain(I)])
+    return it
+
+
+@model('Iterator::last')
+def m_iter_last(I, c, a):
+    xs = as_iter(I, a).drain(I)
+    return Some(xs[-1]) if xs else NONE_()
+
+
+@model('Iterator::nth')
+def m_iter_nth(I, c, a, n):
+    it = deref_all(a)
+    v = STOP
+    for _ in range(n + 1):
+        v = it.next(I)
+        if v is STOP:
+            return NONE_()
+    return Some(v)
+
+
+@model('Iterator::position')
+def m_iter_position(I, c, a, f):
+    it = deref_all(a)
+    i = 0
+    while True:
+        v = it.next(I)
+        if v is STOP:
+            return NONE_()
+        if I.ctx.decide(I.call_value(f, [v])):
+            return Some(i)
+        i += 1
+
+
+@model('Iterator::find')
+def m_iter_find(I, c, a, f):
+    it = deref_all(a)
+    while True:
+        v = it.next(I)
+        if v is STOP:
+            return NONE_()
+        if I.ctx.decide(I.call_value(f, [Ref([v], 0)])):
+            return Some(v)
+
+
+@model('Iterator::find_map', 'Iterator::filter_map')
+def m_iter_find_map(I, c, a, f):
+    it = as_iter(I, a)
+    out = []
+    while True:
+        v = it.next(I)
+        if v is STOP:
+            break
+        r = I.call_value(f, [v])
+        if r.variant == 'Some':
+            if c.method == 'find_map':
+                return r
+            out.append(r.fields[0])
+    return NONE_() if c.method == 'find_map' else ListIt(out)
+
+
+@model('Iterator::fold')
+def m_iter_fold(I, c, a, init, f):
+    acc = init
+    for v in as_iter(I, a).drain(I):
+        acc = I.call_value(f, [acc, v])
+    return acc
+
+
+@model('Iterator::for_each')
+def m_iter_for_each(I, c, a, f):
+    for v in as_iter(I, a).drain(I):
+        I.call_value(f, [v])
+    return UNIT()
+
+
+@model('Iterator::skip_while', 'Iterator::take_while')
+def m_iter_while(I, c, a, f):
+    xs = as_iter(I, a).drain(I)
+    i = 0
+    while i < len(xs) and I.ctx.decide(I.call_value(f, [Ref(xs, i)])):
+        i += 1
+    return ListIt(xs[i:] if c.method == 'skip_while' else xs[:i])
+
+
+@model('Iterator::max', 'Iterator::min')
+def m_iter_minmax(I, c, a):
+    xs = as_iter(I, a).drain(I)
+    if not xs:
+        return NONE_()
+    best = xs[0]
+    for v in xs[1:]:
+        o = seq_cmp(I, [zx(v)], [zx(best)])
+        if (c.method == 'max' and o >= 0) or (c.method == 'min' and o < 0):
+            best = v
+    return Some(best)
+
+
+# ---- more Option / Result
+@model('Option::unwrap_or_else')
+def m_opt_unwrap_or_else(I, c, o, f):
+    return o.fields[0] if o.variant == 'Some' else I.call_value(f, [])
+
+
+@model('Result::unwrap_or_else')
+def m_res_unwrap_or_else(I, c, o, f):
+    return o.fields[0] if o.variant == 'Ok' else I.call_value(f, [o.fields[0]])
+
+
+@model('Result::unwrap_or', 'Result::unwrap_or_default')
+def m_res_unwrap_or(I, c, o, *d):
+    if o.variant == 'Ok':
+        return o.fields[0]
+    if d:
+        return d[0]
+    raise Unsupported('Result::unwrap_or_default')
+
+
+@model('Option::map_or')
+def m_opt_map_or(I, c, o, d, f):
+    return I.call_value(f, [o.fields[0]]) if o.variant == 'Some' else d
+
+
+@model('Option::map_or_else')
+def m_opt_map_or_else(I, c, o, d, f):
+    return I.call_value(f, [o.fields[0]]) if o.variant == 'Some' else I.call_value(d, [])
+
+
+@model('Option::is_some_and')
+def m_is_some_and(I, c, o, f):
+    return o.variant == 'Some' and I.ctx.decide(I.call_value(f, [o.fields[0]]))
+
+
+@model('Option::is_none_or')
+def m_is_none_or(I, c, o, f):
+    return o.variant == 'None' or I.ctx.decide(I.call_value(f, [o.fields[0]]))
+
+
+@model('Option::or')
+def m_opt_or(I, c, o, b):
+    return o if o.variant == 'Some' else b
+
+
+@model('Option::or_else')
+def m_opt_or_else(I, c, o, f):
+    return o if o.variant == 'Some' else I.call_value(f, [])
+
+
+@model('Option::and')
+def m_opt_and(I, c, o, b):
+    return b if o.variant == 'Some' else o
+
+
+@model('Option::xor')
+def m_opt_xor(I, c, a, b):
+    if (a.variant == 'Some') != (b.variant == 'Some'):
+        return a if a.variant == 'Some' else b
+    return NONE_()
+
+
+@model('Option::take')
+def m_opt_take(I, c, r):
+    v = r.get()
+    r.set(NONE_())
+    return v
+
+
+@model('Option::as_mut', 'Result::as_ref', 'Result::as_mut')
+def m_as_mut(I, c, o):
+    v = deref_all(o)
+    if v.variant in ('None',):
+        return NONE_()
+    return Adt(v.ty, v.variant, [Ref(v.fields, 0)])
+
+
+@model('Option::ok_or_else')
+def m_ok_or_else2(I, c, o, f):
+    return Ok(o.fields[0]) if o.variant == 'Some' else Err(I.call_value(f, []))
+
+
+@model('Option::zip')
+def m_opt_zip(I, c, a, b):
+    if a.variant == 'Some' and b.variant == 'Some':
+        return Some(Tup(a.fields[0], b.fields[0]))
+    return NONE_()
+
+
+@model('Option::unzip')
+def m_opt_unzip(I, c, a):
+    if a.variant == 'Some':
+        return Tup(Some(a.fields[0].fields[0]), Some(a.fields[0].fields[1]))
+    return Tup(NONE_(), NONE_())
+
+
+@model('Result::or_else')
+def m_res_or_else(I, c, r, f):
+    return r if r.variant == 'Ok' else I.call_value(f, [r.fields[0]])
+
+
+@model('PartialEq::eq@Option', 'PartialEq::eq@Result')
+def m_opt_eq(I, c, a, b):
+    x, y = deref_all(a), deref_all(b)
+    if x.variant != y.variant:
+        return False
+    if not x.fields:
+        return True
+    inner = c.self_ty[2][0] if x.variant in ('Some', 'Ok') else c.self_ty[2][1]
+    return I.trait_call('PartialEq', 'eq', inner, [Ref(x.fields, 0), Ref(y.fields, 0)])
+
+
+# ---- more String
+@model('$S::insert')
+def m_string_insert(I, c, r, idx, ch):
+    buf = strbuf_of(r)
+    _check_boundary(I, buf.b, idx)
+    buf.b[idx:idx] = encode_char(I, ch)
+    return UNIT()
+
+
+@model('$S::insert_str')
+def m_string_insert_str(I, c, r, idx, s):
+    buf = strbuf_of(r)
+    _check_boundary(I, buf.b, idx)
+    buf.b[idx:idx] = list(sbytes(s))
+    return UNIT()
+
+
+@model('$S::truncate')
+def m_string_truncate(I, c, r, n):
+    buf = strbuf_of(r)
+    if n < len(buf.b):
+        _check_boundary(I, buf.b, n)
+        del buf.b[n:]
+    return UNIT()
+
+
+@model('$S::pop')
+def m_string_pop(I, c, r):
+    buf = strbuf_of(r)
+    if not buf.b:
+        return NONE_()
+    chars, i, last = [], 0, 0
+    while i < len(buf.b):
+        last = i
+        ch, w = decode_char(I, buf.b, i)
+        i += w
+    del buf.b[last:]
+    return Some(ch)
+
+
+@model('$S::reserve', '$S::reserve_exact', '$S::shrink_to_fit')
+def m_string_reserve(I, c, r, *n):
+    return UNIT()
+
+
+@model('$S::capacity')
+def m_string_capacity(I, c, r):
+    return len(strbuf_of(r).b)
+
+
+@model('$S::into_bytes', '$S::as_bytes')
+def m_string_into_bytes(I, c, r):
+    return VecVal(list(sbytes(r))) if c.method == 'into_bytes' else RStr(sbytes(r))
+
+
+@model('$S::retain')
+def m_string_retain(I, c, r, f):
+    buf = strbuf_of(r)
+    out, i = [], 0
+    while i < len(buf.b):
+        ch, w = decode_char(I, buf.b, i)
+        if I.ctx.decide(I.call_value(f, [ch])):
+            out.extend(buf.b[i:i + w])
+        i += w
+    buf.b[:] = out
+    return UNIT()
+
+
+@model('$S::into_string', '$S::into_boxed_str', 'Into::into@String')
+def m_into_string(I, c, r):
+    return StringBuf(sbytes(r))
+
+
+@model('Add::add@String', 'AddAssign::add_assign@String')
+def m_string_add(I, c, a, b):
+    if c.method == 'add':
+        a.b.extend(sbytes(b))
+        return a
+    strbuf_of(a).b.extend(sbytes(b))
+    return UNIT()
+
+
+@model('FromIterator::from_iter@String', 'FromIterator::from_iter@SmartString')
+def m_string_from_iter(I, c, it):
+    out = []
+    for ch in as_iter(I, it).drain(I):
+        if isinstance(ch, (RStr, StringBuf)):
+            out.extend(sbytes(ch))
+        else:
+            out.extend(encode_char(I, ch))
+    return StringBuf(out)
+
+
+@model('fn:from_utf8')
+def m_from_utf8(I, c, v):
+    d = deref_all(v)
+    b = d.items if isinstance(d, VecVal) else list(sbytes(d))
+    if utf8_valid(I, b):
+        return Ok(RStr(b))
+    return Err(Adt('Utf8Error', None, []))
+
+
+@model('String::from_utf8')
+def m_string_from_utf8(I, c, v):
+    b = deref_all(v).items
+    if utf8_valid(I, b):
+        return Ok(StringBuf(b))
+    return Err(Adt('FromUtf8Error', None, [VecVal(b)]))
+
+
+@model('Vec::extend_from_slice', 'Extend::extend@Vec')
+def m_vec_extend(I, c, r, src):
+    v = vec_of(r)
+    s = deref_all(src)
+    if isinstance(s, VecVal):
+        v.items.extend(clone_val(x) for x in s.items)
+    elif isinstance(s, It):
+        v.items.extend(s.drain(I))
+    else:
+        v.items.extend(sbytes(s))
+    return UNIT()
+
+
+@model('Vec::truncate')
+def m_vec_truncate(I, c, r, n):
+    del vec_of(r).items[n:]
+    return UNIT()
+
+
+@model('Vec::first', 'slice::first')
+def m_vec_first(I, c, r):
+    v = vec_of(r)
+    return Some(Ref(v.items, 0)) if v.items else NONE_()
+
+
+@model('Vec::last', 'slice::last', 'slice::last_mut', 'slice::first_mut')
+def m_vec_last(I, c, r):
+    v = vec_of(r)
+    if not v.items:
+        return NONE_()
+    return Some(Ref(v.items, len(v.items) - 1 if 'last' in c.method else 0))
+
+
+@model('slice::get', 'slice::get_mut', 'Vec::get')
+def m_slice_get(I, c, r, i):
+    v = vec_of(r)
+    if not isinstance(i, int):
+        raise Unsupported('slice::get with range / symbolic index')
+    return Some(Ref(v.items, i)) if i < len(v.items) else NONE_()
+
+
+@model('Vec::dedup_by_key', 'Vec::dedup')
+def m_vec_dedup(I, c, r, *f):
+    raise Unsupported('Vec::dedup')
+
+
+@model('Vec::swap_remove')
+def m_vec_swap_remove(I, c, r, i):
+    v = vec_of(r)
+    if i >= len(v.items):
+        raise Panic('swap_remove index out of bounds')
+    v.items[i], v.items[-1] = v.items[-1], v.items[i]
+    return v.items.pop()
+
+
+@model('slice::to_vec', 'slice::into_vec')
+def m_to_vec(I, c, r):
+    return clone_val(vec_of(r))
+
+
+@model('slice::partition_point')
+def m_partition_point(I, c, sl, f):
+    v = vec_of(sl).items
+    lo, hi = 0, len(v)
+    while lo < hi:
+        mid = lo + (hi - lo) // 2
+        if I.ctx.decide(I.call_value(f, [Ref(v, mid)])):
+            lo = mid + 1
+        else:
+            hi = mid
+    return lo
+
+
+@model('slice::binary_search_by_key')
+def m_bsearch_key(I, c, sl, key, f):
+    raise Unsupported('binary_search_by_key')
+
+
+@model('slice::sort_unstable_by_key', 'slice::sort_by_key', 'slice::sort_by_cached_key')
+def m_sort_by_key(I, c, sl, f):
+    raise Unsupported('sort_by_key')
+
+
+@model('slice::sort', 'slice::sort_unstable')
+def m_sort(I, c, sl):
+    v = vec_of(sl).items
+    et = elem_types(c.self_ty)
+    for i in range(1, len(v)):
+        j = i
+        while j > 0 and I.trait_call('Ord', 'cmp', et, [Ref(v, j - 1), Ref(v, j)]).variant == 'Greater':
+            v[j - 1], v[j] = v[j], v[j - 1]
+            j -= 1
+    return UNIT()
+
+
+@model('slice::reverse')
+def m_slice_reverse(I, c, sl):
+    vec_of(sl).items.reverse()
+    return UNIT()
+
+
+@model('slice::join', 'slice::concat')
+def m_slice_join(I, c, sl, *sep):
+    v = vec_of(sl).items
+    out = []
+    for i, e in enumerate(v):
+        if i and sep:
+            out.extend(sbytes(sep[0]))
+        out.extend(sbytes(e))
+    return StringBuf(out)
+
+
+@model('HashMap::entry', 'HashMap::retain', 'HashMap::values', 'HashMap::values_mut', 'HashMap::iter_mut', 'HashMap::drain',
+       'HashMap::get_key_value', 'HashMap::remove_entry', 'HashMap::extend', 'HashMap::clear')
+def m_map_unsupported(I, c, *a):
+    if c.method == 'clear':
+        del map_of(a[0]).entries[:]
+        return UNIT()
+    if c.method == 'values':
+        m = map_of(a[0])
+        return ListIt([Ref(m.entries[i], 1) for i in permute(I, len(m.entries))])
+    raise Unsupported('HashMap::%s' % c.method)
+
+
+@model('fn:min', 'fn:max')
+def m_minmax(I, c, a, b):
+    if isinstance(a, int) and isinstance(b, int):
+        return min(a, b) if c.method == 'min' else max(a, b)
+    raise Unsupported('symbolic min/max')
+
+
+@model('Ord::min@usize', 'Ord::max@usize')
+def m_ord_minmax(I, c, a, b):
+    return min(a, b) if c.method == 'min' else max(a, b)
